@@ -312,7 +312,7 @@ package proxy
 
 // X-Cache says HIT exactly for a response served from the store without
 // contacting the origin; Age is computed from the time the entry was written.
-//@ props C03 C16 C15 C08
+//@ props C03 C16 C15 C08 C01
 //@ func addCacheHeaders
 //@   nopanic
 //@   requires req != nil
@@ -320,9 +320,13 @@ package proxy
 //@   ensures [C03] len(resphdr(r)["X-Cache"]) == old(len(resphdr(r)["X-Cache"])) + 1
 //@   ensures [C03] cacheStatus.hitStatus == 2 <==> sid(resphdr(r)["X-Cache"][len(resphdr(r)["X-Cache"])-1]) == sid("HIT")
 //@   ensures [C03] cached.some && (cacheStatus.hitStatus == 2 || cacheStatus.hitStatus == 1) && (decval(sid(cached.value.Metadata.Object.Header["Age"][0])) < 4000000000 || !in(cached.value.Metadata.Object.Header, "Age")) && now - cached.value.Metadata.TimeWritten < 9000000000000000000 && cached.value.Metadata.TimeWritten - now < 9000000000000000000 ==> decval(sid(resphdr(r)["Age"][0])) >= (now - cached.value.Metadata.TimeWritten) / 1000000000
-//@   assigns map_ responder.
+//@   assigns map_@resphdr(r) responder.
 //@   ensures [C08] len(resphdr(r)["Via"]) == old(len(resphdr(r)["Via"])) + 1
 //@   ensures [C08] forall i int :: 0 <= i && i < old(len(resphdr(r)["Via"])) ==> sid(resphdr(r)["Via"][i]) == old(sid(resphdr(r)["Via"][i]))
+//@   ensures [C01] in(resphdr(r), "Content-Type") == old(in(resphdr(r), "Content-Type")) && len(resphdr(r)["Content-Type"]) == old(len(resphdr(r)["Content-Type"])) && sid(resphdr(r)["Content-Type"][0]) == old(sid(resphdr(r)["Content-Type"][0]))
+//@   ensures [C01] in(resphdr(r), "Content-Length") == old(in(resphdr(r), "Content-Length")) && len(resphdr(r)["Content-Length"]) == old(len(resphdr(r)["Content-Length"])) && sid(resphdr(r)["Content-Length"][0]) == old(sid(resphdr(r)["Content-Length"][0]))
+//@   ensures [C01] in(resphdr(r), "Etag") == old(in(resphdr(r), "Etag")) && len(resphdr(r)["Etag"]) == old(len(resphdr(r)["Etag"])) && sid(resphdr(r)["Etag"][0]) == old(sid(resphdr(r)["Etag"][0]))
+//@   ensures [C01] in(resphdr(r), "Last-Modified") == old(in(resphdr(r), "Last-Modified")) && len(resphdr(r)["Last-Modified"]) == old(len(resphdr(r)["Last-Modified"])) && sid(resphdr(r)["Last-Modified"][0]) == old(sid(resphdr(r)["Last-Modified"][0]))
 
 // ---------------------------------------------------------------- request handling (C16)
 
@@ -355,7 +359,7 @@ package proxy
 // answers with an error of its own making, only when an origin request failed (its own
 // or the shared one it waited for), when the client's Range cannot be satisfied, or when
 // writing to the client failed.
-//@ props C09 C16 C15 C02
+//@ props C09 C16 C15 C02 C01 C08
 //@ func Proxy.processRequest
 //@   ghost callsite-requires [C02] dedupFetch keyid(arg_key) == keyid(key)
 //@   ghost callsite-requires [C02] handleRangeRequest keyid(arg_key) == keyid(key)
@@ -369,6 +373,10 @@ package proxy
 //@   ensures [C09] upfails == old(upfails) && sferrs == old(sferrs) && !ioerr(result) ==> httperrs(r) == old(httperrs(r)) || (httpstatus(r) == 416 && iserr(result, ErrRangeNotSatisfiable))
 //@   ensures req.Body == old(req.Body)
 //@   requires [C16] hijacked(r) == 0
+//@   ghost callsite-requires [C08] finalizeAndRespond fetched.Type == 1 ==> arg_status == fetched.Direct.fetchInfo.UpstreamStatus && ident(arg_resp) == ident(fetched.Direct.Response.Body)
+//@   ghost callsite-requires [C01] finalizeAndRespond fetched.Type == 0 ==> arg_status == 200 && ident(arg_resp) == ident(fetched.Cached.Entry.Data) && sid(resphdr(r)["Etag"][0]) == sid(fetched.Cached.Entry.Metadata.Object.ETag) && sid(resphdr(r)["Last-Modified"][0]) == timefmt(fetched.Cached.Entry.Metadata.Object.LastModified)
+//@   ghost callsite-requires [C01] finalizeAndRespond fetched.Type == 0 && in(fetched.Cached.Entry.Metadata.Object.Header, "Content-Type") ==> len(resphdr(r)["Content-Type"]) == len(fetched.Cached.Entry.Metadata.Object.Header["Content-Type"]) && sid(resphdr(r)["Content-Type"][0]) == sid(fetched.Cached.Entry.Metadata.Object.Header["Content-Type"][0])
+//@   ghost callsite-requires [C01] finalizeAndRespond fetched.Type == 0 && in(fetched.Cached.Entry.Metadata.Object.Header, "Content-Length") ==> len(resphdr(r)["Content-Length"]) == len(fetched.Cached.Entry.Metadata.Object.Header["Content-Length"]) && sid(resphdr(r)["Content-Length"][0]) == sid(fetched.Cached.Entry.Metadata.Object.Header["Content-Length"][0])
 
 // ---------------------------------------------------------------- tunnels (C10)
 
